@@ -304,17 +304,26 @@ def r3_4(ctx, R, dec, free_fns, layout_fn):
     dz = direct_sites(free, r"^alloc::alloc::dealloc$")
     for bb, t, fn in dz:
         lay = ff.operand_expr(t["args"][1])
-        ok = lay[0] == "call" and lay[1] == layout_fn.path and strip_refs(lay[2][0])[0] == "param"
-        ctx.ob("R3.4", free, "dealloc-layout=LAYOUT(capacity-param)", ok, free.loc(bb), expr_str(lay))
-        capi = strip_refs(lay[2][0])[1] if ok else None
         ptr = strip_refs(ff.operand_expr(t["args"][0]))
+        ok = lay[0] == "call" and lay[1] == layout_fn.path and strip_refs(lay[2][0])[0] == "param"
+        capi = strip_refs(lay[2][0])[1] if ok else None
+        if not ok and lay[0] == "call" and lay[1] == layout_fn.path:
+            # the capacity is read back from the header that is being freed: LAYOUT((*p).len) with p the freed pointer
+            a_ = strip_refs(lay[2][0])
+            root = ptr
+            while root[0] == "call" and root[2] and re.search(r"::cast(_mut|_const)?$", root[1] or ""):
+                root = strip_refs(root[2][0])
+            if a_[0] == "proj" and a_[2] and a_[2][-1].startswith(".") and _is_header_len(ctx, ctor, a_[2][-1]) and \
+                    strip_refs(a_[1]) == root and root[0] == "param":
+                ok = True
+        ctx.ob("R3.4", free, "dealloc-layout=LAYOUT(capacity-param)", ok, free.loc(bb), expr_str(lay))
         dips = direct_sites(free, r"core::ptr::drop_in_place$")
         okd = any(free.dominates(d[0], bb) and strip_refs(ff.operand_expr(d[1]["args"][0])) == ptr for d in dips)
         ctx.ob("R3.4", free, "drop_in_place-precedes-dealloc(same pointer)", okd, free.loc(bb))
         after = [x for x in free.reachable(bb) if x != bb and free.term(x)["k"] == "call"]
         ctx.ob("R3.4", free, "nothing-after-dealloc", not after, free.loc(bb), "calls after dealloc: %d" % len(after))
-        # every caller passes header.len as that parameter
-        for cb_, ss in R.callers_of(free):
+        # every caller passes header.len as that parameter (when the capacity is a parameter at all)
+        for cb_, ss in (R.callers_of(free) if capi else []):
             cfl = ctx.flow(cb_)
             for sbb, st, sfn in ss:
                 a = cfl.operand_expr(st["args"][capi - 1]) if capi else ("unknown",)
@@ -367,7 +376,16 @@ def r3_5(ctx, R, layout_fn):
     shapes = {s_[3] for s_ in steps}
     fwd = sum(1 for s_ in steps if s_[2] == "add")
     rev = sum(1 for s_ in steps if s_[2] == "sub")
-    uses_layout = all("Layout::new" in s_[3] or "size_of" in s_[3] or "::slice_offset" in s_[3] or re.search(r"\(\)$", s_[3]) for s_ in steps)
+    def _layout_derived(st):
+        shp, off = st[3], st[4]
+        if "Layout::new" in shp or "size_of" in shp or "::slice_offset" in shp or re.search(r"\(\)$", shp):
+            return True
+        # a named constant whose initialiser computes the offset from the header's layout
+        if off[0] == "const" and len(off) > 3 and off[3] in ctx.facts.bodies:
+            from roles import reaches
+            return reaches(ctx.facts, ctx.facts.bodies[off[3]], r"core::alloc::Layout::(new|size|align)$|core::mem::(size_of|align_of)$", 3)
+        return False
+    uses_layout = all(_layout_derived(s_) for s_ in steps)
     ctx.ob("R3.5", ctor, "(a) one offset computation, used forward and backward", len(shapes) == 1 and fwd >= 2 and rev >= 1 and uses_layout, d_loc(ctor),
            "%d byte-offset steps (add %d, sub %d), %d distinct offset shapes: %s" % (len(steps), fwd, rev, len(shapes), [x[:90] for x in sorted(shapes)][:2]))
     in_ctor = any(s_[0].path == ctor.path and s_[2] == "add" for s_ in steps)
@@ -511,10 +529,13 @@ def r3_6(ctx, R):
 def r3_7(ctx, R):
     ctx.rule("R3.7", "thread-safety surface: the four vtable functions are non-generic and touch no slot-map / child type; "
                      "unsafe impl Send / Sync exist only for the waker list handle")
+    def child_generic(x, c):
+        # a type parameter that stands for a callable (`impl FnOnce()`, or one the body calls) is a helper's hook, not a child
+        return x["k"] == "param" and not x["name"].startswith(("impl Fn", "impl FnMut", "impl FnOnce"))
     for role, b in R.vt.items():
-        generic = any(ctx.facts.type_mentions(t, lambda x, c: x["k"] == "param") for t in b.locals)
+        generic = any(ctx.facts.type_mentions(t, child_generic) for t in b.locals)
         for cb in _closure(ctx, [b], 3):
-            if any(ctx.facts.type_mentions(t, lambda x, c: x["k"] == "param") for t in cb.locals):
+            if any(ctx.facts.type_mentions(t, child_generic) for t in cb.locals):
                 generic = True
         ctx.ob("R3.7", b, "vt[%s]-non-generic" % role, not generic, d_loc(b))
     us = [(i["trait"], i["self_ty"]) for i in ctx.facts.impls
